@@ -4,6 +4,7 @@ import RisorModel.C01.Compile
 import RisorModel.C01.VM
 import RisorModel.C01.PrattOracle
 import RisorModel.C01.FragOracle
+import RisorModel.C01.FunOracle
 /-! Line-protocol front end of the C01 model.
   `eval <sexp>` → `ok <value> <stdout-hex>` | `err <class> <stdout-hex>` | `oof` | `unsupported <what>` -/
 namespace Risor.C01
@@ -85,6 +86,7 @@ def handle : List String → String
         "ok\t" ++ "|".intercalate sorted
   | "pratt" :: rest => handlePratt rest
   | "frag" :: rest => handleFrag rest
+  | "fun" :: rest => handleFun rest
   | _ => "error\tunknown-request"
 
 end Risor.C01
